@@ -6,7 +6,7 @@ Definition c11_n (c : c11case) : N := match c with C11Case n _ _ => n end.
 Definition c11_ops (c : c11case) : list sop := match c with C11Case _ h f => h ++ f end.
 Definition c11_final (c : c11case) : list sop := match c with C11Case _ _ f => f end.
 
-Definition run_C11 (c : c11case) : list Z := run_obs false (init_sys (c11_n c)) (c11_ops c).
+Definition run_C11 (c : c11case) : list Z := run_obs (init_sys (c11_n c)) (c11_ops c).
 
 (* ---- the property's own oracle, on what the IMPLEMENTATION showed ----
    after every step, the peer that step touched shows no row at or below (modification date) a
@@ -43,21 +43,15 @@ Definition spec_C11 (c : c11case) (obs : list Z) : bool :=
        then everywhere (final_state st0 (c11_ops c) blocks) else true)
   end.
 
-(* known-finding classes (known_findings.d/C11.json), decided on the model's run:
-   1  a pull stores a row at or below a deletion record the receiver holds
-      (Node::filter_existing consults _node only)
-   3  two deletion records of one row travel in one answer and the receiver keeps only one
-      (NodeDeletionEntry::with_previous_authors keys the answer by row id) *)
-Definition known_C11 (c : c11case) : list Z :=
-  let ev := run_events false (init_sys (c11_n c)) (c11_ops c) in
-  (if ev_resurrect ev then [1] else []) ++ (if ev_collapse ev then [3] else []).
+(* known-finding classes: none is open any more (known_findings.d/C11.json: class 1, a pull storing a
+   row at or below a deletion record its receiver holds, fixed by ca69f52; class 3, two deletion
+   records of one row in one answer collapsing to one, fixed by bb1bffb) *)
+Definition known_C11 (c : c11case) : list Z := [].
+
+(* the envelope of C11_holds, decided on the model's run: every creation uses an id the peer does
+   not know yet (the code draws fresh uids) and no local update carries a clock that is behind the
+   version it replaces *)
+Definition c11_envelope (c : c11case) : bool := negb (run_guard (init_sys (c11_n c)) (c11_ops c)).
 
 Definition eval_C11 (c : c11case) (obs : list Z) : list Z :=
   [zb (zlist_eqb (run_C11 c) obs); zb (spec_C11 c obs)] ++ known_C11 c.
-
-(* the model with the tombstone lookup of requests/C11-fix-1.diff: what [run_C11] becomes once the
-   repair is applied (used to validate the patch against a patched copy of the code) *)
-Definition run_C11_fixed (c : c11case) : list Z := run_obs true (init_sys (c11_n c)) (c11_ops c).
-Definition eval_C11_fixed (c : c11case) (obs : list Z) : list Z :=
-  [zb (zlist_eqb (run_C11_fixed c) obs); zb (spec_C11 c obs)] ++
-  (if ev_collapse (run_events true (init_sys (c11_n c)) (c11_ops c)) then [3] else []).
